@@ -1,6 +1,6 @@
 #!/bin/sh
 # verify_seed.sh <id>: confirm demo passes clean, fails with patch, suite passes with patch
-id=$1; wt=/tmp/wt_$id; sd=/tmp/seed_$id
+id=$1; wt=/tmp/vwt_$id; sd=/tmp/seed_$id; git -C /repo worktree add -q $wt HEAD 2>/dev/null
 cd $wt || exit 2
 git checkout -q -- . ; git clean -fdq
 demo=$(ls $sd/demo_test.py $sd/demo.py 2>/dev/null | head -1)
@@ -9,4 +9,4 @@ git apply $sd/patch.diff || { echo "$id APPLY-FAIL"; exit 1; }
 /venv/bin/python -m pytest -q -p no:cacheprovider --timeout=600 $demo > $sd/verify_patched.log 2>&1; p=$?
 /venv/bin/python -m pytest -q -p no:cacheprovider --timeout=900 > $sd/verify_suite.log 2>&1; s=$?
 git checkout -q -- . ; git clean -fdq
-echo "$id demo_clean_rc=$c demo_patched_rc=$p suite_patched_rc=$s $(tail -1 $sd/verify_suite.log)"
+git -C /repo worktree remove --force $wt 2>/dev/null; echo "$id demo_clean_rc=$c demo_patched_rc=$p suite_patched_rc=$s $(tail -1 $sd/verify_suite.log)"
